@@ -3,6 +3,7 @@ CONSTANTS
   MaxDepth = 2
   SampleSize = 1500
   NegUnionFlipsEach = FALSE
+  NegNestedUnionFlips = FALSE
   FalsyObjs = {}
   OperandTruthFilter = FALSE
 SPECIFICATION Spec
